@@ -801,7 +801,12 @@ def run(chk):
         "second-of-hour via `minutes` and `seconds` properties / day-of-year "
         "via `month` and `day` properties - all six keys are derived "
         "somewhere, with the raw group differing from the derived value; "
-        "five variants have their own DEFAULT_DATETIME_FORMAT) x current_date (fixed list over day/month/"
+        "two families of matchers that subclass one another and override "
+        "`patterns`, driven parent->child->grandchild and child->parent in "
+        "one process; several variants have their own "
+        "DEFAULT_DATETIME_FORMAT; a slice of sessions runs with TZ set to a "
+        "DST zone and boundaries in the skipped / repeated local hour) x "
+        "current_date (fixed list over day/month/"
         "year/leap-day/century boundaries, years 2..9999, plus random) x "
         "days in {omitted,0,1,7,400} x hours in {omitted,0,1,24,25,1000} x "
         "lines (timestamp on / 1 s before / 1 s after the boundary, +-1 day, "
